@@ -136,8 +136,10 @@ typedef struct {
   const env_t* e;
   const int* ops;
   int nops, rounds;
-  uint64_t seed0;
+  uint64_t seed0;   // (the first round uses the shared arguments, the later rounds this thread's own arguments)
+  uint64_t own_seed;
   const uint64_t* want;
+  const uint64_t* want_own;
   uint64_t wrong;
   int first_bad;
   pthread_barrier_t* bar;
@@ -148,8 +150,9 @@ static void* crep_worker(void* arg) {
   for (int rd = 0; rd < c->rounds; rd++)
     for (int i = 0; i < c->nops; i++) {
       opres_t r;
-      op_exec(&OPS[c->ops[i]], c->e, c->seed0 + (uint64_t)i, (rd + i) & 3, (unsigned)(rd * 3 + i), 0, &r);
-      if (!r.skipped && r.out_hash != c->want[i]) {
+      const int own = rd > 0;
+      op_exec(&OPS[c->ops[i]], c->e, (own ? c->own_seed : c->seed0) + (uint64_t)i, (rd + i) & 3, (unsigned)(rd * 3 + i), 0, &r);
+      if (!r.skipped && r.out_hash != (own ? c->want_own[i] : c->want[i])) {
         if (!c->wrong) c->first_bad = c->ops[i];
         c->wrong++;
       }
@@ -165,7 +168,7 @@ static void concurrent_repeat_case(int envi, int native, int T, unsigned rep) {
   int ops[256], nops = 0;
   for (int i = 0; i < N_CAT_OPS; i++) {
     const opdef_t* o = &OPS[i];
-    if (o->flags & OPF_SIMPLE) continue;  // thread-local parameter caches: their contract needs a warm-up (C12)
+    // (*_simple functions are included: the sequential reference run below is their documented warm-up for this dimension)
     if (!native && (o->flags & (OPF_NTT120 | OPF_AVX | OPF_KERNEL))) continue;
     if (ENVN[envi] >= 8192 && !(strstr(o->name, "fft") || strstr(o->name, "dft") || strstr(o->name, "vmp") || strstr(o->name, "svp") || strstr(o->name, "small") || strstr(o->name, "ntt"))) continue;
     ops[nops++] = i;
@@ -181,10 +184,20 @@ static void concurrent_repeat_case(int envi, int native, int T, unsigned rep) {
   pthread_t tid[16];
   pthread_barrier_t bar;
   pthread_barrier_init(&bar, 0, (unsigned)T);
+  // every thread also gets arguments of its own (other divisors / bounds / exponents than its neighbours), with the
+  // reference results computed alone beforehand
+  uint64_t* want_own[16];
   for (int t = 0; t < T; t++) {
-    c[t] = (crep_t){e, ops, nops, ENVN[envi] <= 1024 ? 6 : 2, seed0, want, 0, -1, &bar};
-    pthread_create(&tid[t], 0, crep_worker, &c[t]);
+    want_own[t] = calloc((size_t)nops, 8);
+    const uint64_t own = seed0 + 7777 * (uint64_t)(t + 1);
+    for (int i = 0; i < nops; i++) {
+      opres_t r;
+      op_exec(&OPS[ops[i]], e, own + (uint64_t)i, 2, 3, 0, &r);
+      want_own[t][i] = r.skipped ? 0 : r.out_hash;
+    }
+    c[t] = (crep_t){e, ops, nops, ENVN[envi] <= 1024 ? 6 : 2, seed0, own, want, want_own[t], 0, -1, &bar};
   }
+  for (int t = 0; t < T; t++) pthread_create(&tid[t], 0, crep_worker, &c[t]);
   uint64_t calls = 0;
   for (int t = 0; t < T; t++) {
     pthread_join(tid[t], 0);
@@ -193,6 +206,7 @@ static void concurrent_repeat_case(int envi, int native, int T, unsigned rep) {
   }
   pthread_barrier_destroy(&bar);
   free(want);
+  for (int t = 0; t < T; t++) free(want_own[t]);
   cnt("concurrent_repetitions", calls);
   sample("%d entry points repeated by %d threads, %" PRIu64 " calls bit-identical to the first run", nops, T, calls);
   case_end(nops > 0);
